@@ -549,6 +549,21 @@ class TheCheck(Check):
                 ops += ["load %s 3d %s" % (hexs(f), rng.choice("01")), "size"]
         sts.append(Stream("save-load", ops, history=True, note="values over all 255 non-NUL bytes; arbitrary files"))
 
+        # 5a. saved lines of length N-1, N, N+1 around every integer constant of the CURRENT qlisttbl.c (after
+        #     preprocessing), followed by a further entry: a line buffer of any size a rewrite introduces is
+        #     met exactly (seed C08-m9)
+        nums = [n for n in vlib.source_numbers(["src/containers/qlisttbl.c"]) if 64 <= n <= 70000]
+        for big_ in (False, True):      # the list-based model is slow on long lines: above 1100 implementation + oracle only
+            ops = []
+            for n in [x for x in nums if (x > 1100) == big_]:
+                for L in (n - 1, n, n + 1):
+                    for enc in "10":
+                        ops += ["new 0 0 0 0", kop("putstr", b"first", hexs(b"1")), kop("putstr", b"alpha", hexs(b"x" * (L - 7))),
+                                kop("putstr", b"last", hexs(b"z")), "rt 3d 0 0 0 0 " + enc, "size", "walk 0"]
+            if ops:
+                sts.append(Stream("save-line-boundaries" + ("-long" if big_ else ""), ops, history=True, nomodel=big_,
+                                  note="line lengths around the constants of the current source: %s" % nums))
+
         # 5b. save/load glue: every separator (also blank, tab, colon) x encode on/off x awkward values
         #     (empty, separator inside, line break, %, escapes-lookalikes, bytes >= 0x80, blanks at the ends);
         #     hand-written files: CRLF, no final newline, empty lines, no separator, duplicates (UNIQUE tables)
